@@ -162,3 +162,26 @@
 ;; IANA checksum type number -> encryption family (Kerberos parameters registry: 12, 15, 16, 19, 20; -138 RFC 4757)
 (define-fun cksum_etype_ok ((id (_ BitVec 32)) (t Int)) Bool
   (and (et_known t) (= (et_cksumid t) id)))
+
+;; ---- message decryption seen from the protocol layer ----
+;; et_dec_ok / et_dec_pt: DecryptMessage of an encryption type succeeds / its plaintext (confounder removed). At this
+;; level uninterpreted; properties C05/C06 relate them to the RFC compositions (HMAC over the decrypted data equals the tag).
+(declare-fun et_dec_ok (Int BSeq (_ BitVec 32) BSeq) Bool)
+
+(declare-fun et_dec_pt (Int BSeq (_ BitVec 32) BSeq) BSeq)
+
+;; the implementation registered for an IANA etype number
+(define-fun tag_of_etype ((id (_ BitVec 32))) Int
+  (ite (= id #x00000010) tid.crypto.Des3CbcSha1Kd
+  (ite (= id #x00000011) tid.crypto.Aes128CtsHmacSha96
+  (ite (= id #x00000012) tid.crypto.Aes256CtsHmacSha96
+  (ite (= id #x00000013) tid.crypto.Aes128CtsHmacSha256128
+  (ite (= id #x00000014) tid.crypto.Aes256CtsHmacSha384192
+  (ite (= id #x00000017) tid.crypto.RC4HMAC 0)))))))
+
+;; decryption of an EncryptedData cipher under a key of the given type with a key usage
+(define-fun krb_dec_ok ((kt (_ BitVec 32)) (k BSeq) (u (_ BitVec 32)) (c BSeq)) Bool
+  (and (et_known (tag_of_etype kt)) (et_dec_ok (tag_of_etype kt) k u c)))
+
+(define-fun krb_dec_pt ((kt (_ BitVec 32)) (k BSeq) (u (_ BitVec 32)) (c BSeq)) BSeq
+  (et_dec_pt (tag_of_etype kt) k u c))
